@@ -18,7 +18,26 @@
 \*   ignore   -i '{eq {g} v}'                     drop the match when group g = v
 \* A matched, not ignored line whose extracted text is empty is counted as ignored
 \* (extractor.go).
+\*
+\* Strengthened (matchers, atoms, delimiters, sources):
+\*   matcher  cd.mt = "re"   the regex above (numbered groups only)
+\*                    "ren"  the same regex with the groups named k, s, v
+\*                    "dis"  --dissect '%{k}|%{s}|%{v}': k and s run to the next '|', v to the end of the
+\*                           line (a line with MORE than three fields matches, v keeps the further '|')
+\*   atoms    cd.ext is a sequence of atom codes: 1..3 capture group, 4 {line} (number of the line
+\*            within its source, from 1), 5 {src} (name of the source), 6 {.} 7 {#} 8 {.#} (the JSON
+\*            views of the match, rendered as MiniJsonEnc!Encode)
+\*   delim    cd.delim = <<>>: the atoms are separate -e arguments, joined with NUL by the command line
+\*            builder and split on NUL by the aggregator; otherwise (table / heatmap / spark --delim d):
+\*            ONE -e argument holding the atoms joined with the text d, the aggregator splits on d
+\*            (left to right, non-overlapping occurrences of the WHOLE delimiter)
+\*   sources  a run reads the corpus as a sequence of sources (files in argument order, or stdin);
+\*            a layout is <<[name, lo, hi]>>: source k holds the corpus lines lo..hi and numbers them
+\*            1, 2, ...   The reference aggregate of a command that uses {line} / {src} is a function
+\*            of the layout (and of nothing else: not of batches, workers, pacing of the input).
 EXTENDS Bytes, TLC
+
+J == INSTANCE MiniJsonEnc
 
 SEP == 124                      \* '|'
 BADTYPE == <<60, 66, 65, 68, 45, 84, 89, 80, 69, 62>>     \* "<BAD-TYPE>"  (expressions.ErrorNum)
@@ -40,21 +59,52 @@ SortedNames(S) == SortSeq(SetToSeq(S), LexLess)
 (* 1. match / ignore / extract                                                *)
 Fields(line) == SplitOn(line, SEP)
 IsMatch(line) == Len(Fields(line)) = 3
+S_k == <<107>>   S_s == <<115>>   S_v == <<118>>     \* the group names k, s, v
+S_stdin == <<60, 115, 116, 100, 105, 110, 62>>       \* "<stdin>"
 
-\* cd: command descriptor [cmd, ext: <<group numbers>>, ig: group number or 0, iv: bytes,
-\*                         grp: group number or 0 (reduce), acc: <<accumulator tags>> (reduce)]
-Extracted(cd, line) ==
-  LET f == Fields(line) IN JoinSeq([i \in 1..Len(cd.ext) |-> f[cd.ext[i]]], <<NUL>>)
-IgnoredBy(cd, line) == cd.ig # 0 /\ Fields(line)[cd.ig] = cd.iv
-\* "nomatch" | "ignored" | "sample"
-Classify(cd, line) ==
-  IF ~IsMatch(line) THEN "nomatch"
-  ELSE IF IgnoredBy(cd, line) \/ Extracted(cd, line) = <<>> THEN "ignored"
+\* cd: command descriptor [cmd, mt: matcher, ext: <<atom codes>>, delim: bytes, ig: group number or 0,
+\*                         iv: bytes, grp: group number or 0 (reduce), acc: <<accumulator tags>> (reduce)]
+\* the captures of a line: [ok, g] with g = <<group 0, group 1, group 2, group 3>>
+Caps(cd, line) ==
+  LET f == Fields(line) IN
+  IF cd.mt = "dis"
+  THEN (IF Len(f) >= 3 THEN [ok |-> TRUE, g |-> <<line, f[1], f[2], JoinSeq(SubSeq(f, 3, Len(f)), <<SEP>>)>>]
+        ELSE [ok |-> FALSE, g |-> <<>>])
+  ELSE (IF Len(f) = 3 THEN [ok |-> TRUE, g |-> <<line, f[1], f[2], f[3]>>] ELSE [ok |-> FALSE, g |-> <<>>])
+\* <<name, group index>> of the named groups
+Names(cd) == IF cd.mt = "re" THEN <<>> ELSE << <<S_k, 1>>, <<S_s, 2>>, <<S_v, 3>> >>
+Delim(cd) == IF cd.delim = <<>> THEN <<NUL>> ELSE cd.delim
+\* does the result depend on how the lines are divided among sources?
+LayoutDep(cd) == \E i \in 1..Len(cd.ext) : cd.ext[i] \in {4, 5}
+
+\* text of one atom for a match with captures g, read as line number lno of the source named src
+AtomText(cd, g, src, lno, a) ==
+  CASE a \in 1..3 -> g[a + 1]
+    [] a = 4 -> Itoa(lno)
+    [] a = 5 -> src
+    [] a = 6 -> J!Encode(Names(cd), g, TRUE, FALSE)
+    [] a = 7 -> J!Encode(Names(cd), g, FALSE, TRUE)
+    [] a = 8 -> J!Encode(Names(cd), g, TRUE, TRUE)
+ElementOf(cd, g, src, lno) ==
+  JoinSeq([i \in 1..Len(cd.ext) |-> AtomText(cd, g, src, lno, cd.ext[i])], Delim(cd))
+\* "nomatch" | "ignored" | "sample", and the element of a sample
+ClassOf(cd, c, src, lno) ==
+  IF ~c.ok THEN "nomatch"
+  ELSE IF (cd.ig # 0 /\ c.g[cd.ig + 1] = cd.iv) \/ ElementOf(cd, c.g, src, lno) = <<>> THEN "ignored"
   ELSE "sample"
+ClassifyAt(cd, line, src, lno) == ClassOf(cd, Caps(cd, line), src, lno)
+ExtractedAt(cd, line, src, lno) == ElementOf(cd, Caps(cd, line).g, src, lno)
+\* commands whose result does not depend on the layout (no {line} / {src}): source and number are void
+Extracted(cd, line) == ExtractedAt(cd, line, <<>>, 0)
+IgnoredBy(cd, line) == cd.ig # 0 /\ Caps(cd, line).g[cd.ig + 1] = cd.iv
+Classify(cd, line) == ClassifyAt(cd, line, <<>>, 0)
 
 -----------------------------------------------------------------------------
 (* 2. aggregators: Sample(state, element) transcribed from pkg/aggregation       *)
 Parts(el) == SplitOn(el, NUL)
+\* pkg/stringSplitter: Next() returns the text before the next occurrence of the whole delimiter
+\* and continues after it
+PartsD(el, d) == SplitSeq(el, d)
 
 \* ---- MatchCounter (histogram): key [NUL increment]
 CounterInit == [cnt |-> EmptyF, err |-> 0]
@@ -73,13 +123,14 @@ CounterSample(st, el) == CounterApply(st, CounterParse(el))
 \* ---- grid of (a, b) -> count: TableAggregator (a = column, b = row) and SubKeyCounter
 \*      (a = key, b = sub-key); element = a [NUL b [NUL increment]]
 GridInit == [cells |-> EmptyF, err |-> 0]
-GridParse(el) ==
-  LET p == Parts(el)
+GridParseD(el, d) ==
+  LET p == PartsD(el, d)
       b == IF Len(p) >= 2 THEN p[2] ELSE <<>>
   IN IF Len(p) >= 3 THEN
           IF ParseIntOK(p[3]) THEN [a |-> p[1], b |-> b, err |-> FALSE, inc |-> ParseIntVal(p[3])]
           ELSE [a |-> p[1], b |-> b, err |-> TRUE, inc |-> 0]
      ELSE [a |-> p[1], b |-> b, err |-> FALSE, inc |-> 1]
+GridParse(el) == GridParseD(el, <<NUL>>)
 GridApply(st, ps) ==
   IF ps.err THEN [st EXCEPT !.err = @ + 1]
   ELSE LET c == <<ps.a, ps.b>> IN
@@ -140,7 +191,8 @@ AggInit(cd) ==
     [] Kind(cd) = "acc" -> AccInit
 ParseEl(cd, el) ==
   CASE Kind(cd) = "counter" -> CounterParse(el)
-    [] Kind(cd) \in {"table", "subkey"} -> GridParse(el)
+    [] Kind(cd) = "table" -> GridParseD(el, Delim(cd))
+    [] Kind(cd) = "subkey" -> GridParse(el)
     [] Kind(cd) = "num" -> NumParse(el)
     [] Kind(cd) = "acc" -> AccParse(cd, el)
 AggApply(cd, st, ps) ==
@@ -216,17 +268,19 @@ NumMode(st) ==        \* smallest value with the maximal multiplicity
   LET best == MaxOf({st.cnt[v] : v \in NumVals(st)}) IN MinOf({v \in NumVals(st) : st.cnt[v] = best})
 -----------------------------------------------------------------------------
 (* 5. expected observables of a corpus descriptor                              *)
-\* r: [pool: <<line bytes>>, seq: <<pool index>>, cmd, ext, ig, iv, grp, acc, gname, anames];
+\* r: [pool: <<line bytes>>, seq: <<pool index>>, cmd, mt, ext, delim, ig, iv, grp, acc, gname, anames];
 \* the corpus is the sequence of lines pool[seq[i]]
-CdOf(r) == [cmd |-> r.cmd, ext |-> r.ext, ig |-> r.ig, iv |-> r.iv, grp |-> r.grp, acc |-> r.acc]
+CdOf(r) == [cmd |-> r.cmd, mt |-> r.mt, ext |-> r.ext, delim |-> r.delim, ig |-> r.ig, iv |-> r.iv,
+            grp |-> r.grp, acc |-> r.acc]
 
 \* expected observables of a reset group.  The reference fold RefAgg is evaluated in a
 \* memoised form: classification / parsing once per distinct line of the pool.
 Expect(r) ==
   LET cd   == CdOf(r)
       P    == Len(r.pool)
-      cls  == [i \in 1..P |-> Classify(cd, r.pool[i])]
-      el   == [i \in 1..P |-> IF cls[i] = "sample" THEN Extracted(cd, r.pool[i]) ELSE <<>>]
+      cap  == [i \in 1..P |-> Caps(cd, r.pool[i])]
+      cls  == [i \in 1..P |-> ClassOf(cd, cap[i], <<>>, 0)]
+      el   == [i \in 1..P |-> IF cls[i] = "sample" THEN ElementOf(cd, cap[i].g, <<>>, 0) ELSE <<>>]
       ps   == [i \in 1..P |-> IF cls[i] = "sample" THEN ParseEl(cd, el[i]) ELSE 0]
       agg  == FoldLeft(LAMBDA st, ix : IF cls[ix] = "sample" THEN AggApply(cd, st, ps[ix]) ELSE st,
                        AggInit(cd), r.seq)
@@ -245,5 +299,48 @@ Expect(r) ==
       nums |-> SummaryNums(cd, agg, matched, Len(r.seq), ignored),
       \* self-check of the memoised fold against the definition on small corpora
       selfok |-> Len(r.seq) > 12 \/ agg = RefAgg(cd, [i \in 1..Len(r.seq) |-> r.pool[r.seq[i]]])]
+
+\* ---- the same for a given layout (needed when the command uses {line} / {src}; equal to Expect(r)
+\*      for every layout otherwise - law LayoutFree of RareText_MC).
+\* lay = <<[name, lo, hi]>>, the sources in reading order; LayoutOK: they hold every corpus line once
+LayoutOK(lay, N) ==
+  /\ \A k \in 1..Len(lay) : lay[k].lo >= 1 /\ lay[k].hi <= N /\ lay[k].lo <= lay[k].hi + 1
+  /\ FoldLeft(+, 0, [k \in 1..Len(lay) |-> lay[k].hi - lay[k].lo + 1]) = N
+  /\ \A i \in 1..N : \E k \in 1..Len(lay) : lay[k].lo <= i /\ i <= lay[k].hi
+\* corpus positions in reading order
+ReadOrder(lay) == Flatten([k \in 1..Len(lay) |-> [j \in 1..(lay[k].hi - lay[k].lo + 1) |-> lay[k].lo + j - 1]])
+\* the reference aggregation of the layout, by the definition: source after source, line after line
+RefAggLay(cd, lines, lay) ==
+  LET step(st, k) ==
+        FoldLeft(LAMBDA st2, j :
+                   LET ln == lines[lay[k].lo + j - 1] IN
+                   IF ClassifyAt(cd, ln, lay[k].name, j) = "sample"
+                   THEN AggSample(cd, st2, ExtractedAt(cd, ln, lay[k].name, j)) ELSE st2,
+                 st, [j \in 1..(lay[k].hi - lay[k].lo + 1) |-> j])
+  IN FoldLeft(step, AggInit(cd), [k \in 1..Len(lay) |-> k])
+ExpectLay(r, lay) ==
+  LET cd   == CdOf(r)
+      P    == Len(r.pool)
+      N    == Len(r.seq)
+      cap  == [i \in 1..P |-> Caps(cd, r.pool[i])]
+      srcK == [i \in 1..N |-> CHOOSE k \in 1..Len(lay) : lay[k].lo <= i /\ i <= lay[k].hi]
+      cls  == [i \in 1..N |-> ClassOf(cd, cap[r.seq[i]], lay[srcK[i]].name, i - lay[srcK[i]].lo + 1)]
+      ps   == [i \in 1..N |-> IF cls[i] = "sample"
+                               THEN ParseEl(cd, ElementOf(cd, cap[r.seq[i]].g, lay[srcK[i]].name, i - lay[srcK[i]].lo + 1))
+                               ELSE 0]
+      agg  == FoldLeft(LAMBDA st, i : IF cls[i] = "sample" THEN AggApply(cd, st, ps[i]) ELSE st,
+                       AggInit(cd), ReadOrder(lay))
+      cnt(c) == Cardinality({i \in 1..N : cls[i] = c})
+      matched == cnt("sample")
+      ignored == cnt("ignored")
+      csv  == CASE Kind(cd) = "counter" -> CounterCsv(agg)
+                [] Kind(cd) = "table" -> TableCsv(agg)
+                [] Kind(cd) = "subkey" -> SubKeyCsv(agg)
+                [] Kind(cd) = "acc" -> AccCsv(cd, agg, r.gname, r.anames)
+                [] OTHER -> <<>>
+  IN [cd |-> cd, agg |-> agg, matched |-> matched, total |-> N, ignored |-> ignored,
+      perr |-> AggErrors(cd, agg), csv |-> csv, indom |-> Kind(cd) # "num",
+      nums |-> SummaryNums(cd, agg, matched, N, ignored),
+      selfok |-> N > 12 \/ agg = RefAggLay(cd, [i \in 1..N |-> r.pool[r.seq[i]]], lay)]
 
 =============================================================================
